@@ -1,3 +1,4 @@
+use std::ffi::OsStr;
 use std::fs::File;
 use std::io;
 use std::io::prelude::*;
@@ -62,14 +63,18 @@ fn main() {
         )
         .get_matches();
 
+    // Arguments are taken as the OS passes them: a file name need not be valid UTF-8.
     let file_expression = matches
-        .value_of("expr-file")
+        .value_of_os("expr-file")
         .map(|f| read_file("expression", f));
 
     let expr = if let Some(ref e) = file_expression {
         compile(e)
     } else {
-        compile(matches.value_of("expression").unwrap())
+        match matches.value_of_os("expression").unwrap().to_str() {
+            Some(e) => compile(e),
+            None => die!("The expression is not valid UTF-8"),
+        }
     }
     .map_err(|e| die!(e.to_string()))
     .unwrap();
@@ -79,7 +84,7 @@ fn main() {
         exit(0);
     }
 
-    let json = Rc::new(get_json(matches.value_of("filename")));
+    let json = Rc::new(get_json(matches.value_of_os("filename")));
 
     match expr.search(&json) {
         Err(e) => die!(e.to_string()),
@@ -99,23 +104,32 @@ fn show_result(result: Rcvar, unquoted: bool) {
     }
 }
 
-fn read_file(label: &str, filename: &str) -> String {
+fn read_file(label: &str, filename: &OsStr) -> String {
     match File::open(filename) {
         Err(e) => die!(format!(
             "Error opening {} file at {}: {}",
-            label, filename, e
+            label,
+            filename.to_string_lossy(),
+            e
         )),
         Ok(mut file) => {
             let mut buffer = String::new();
             file.read_to_string(&mut buffer)
-                .map_err(|e| die!(format!("Error reading {} from {}: {}", label, filename, e)))
+                .map_err(|e| {
+                    die!(format!(
+                        "Error reading {} from {}: {}",
+                        label,
+                        filename.to_string_lossy(),
+                        e
+                    ))
+                })
                 .map(|_| buffer)
                 .unwrap()
         }
     }
 }
 
-fn get_json(filename: Option<&str>) -> Variable {
+fn get_json(filename: Option<&OsStr>) -> Variable {
     let buffer = match filename {
         Some(f) => read_file("JSON", f),
         None => {
